@@ -249,9 +249,9 @@ package generator
 //@   requires [C17:non-empty] len(and.And) >= 1
 //@   ensures [C02:composition] len(result) == andAlts(and.And)
 //@   loop 1 /* for _, tr := range firstTraversed */
-//@     invariant [C02] len(acc) == times(#i, andAlts(remaining))
+//@     invariant [C02] len(acc) == times(#i, andAlts(sub(and.And, 1, len(and.And))))
 //@   loop 2 /* for _, ntr := range traverse(next, internalResultToTraversal(t, tr), fetchNodes, iriExpander) */
-//@     invariant [C02] len(acc) == times(#i@1, andAlts(remaining)) + #i
+//@     invariant [C02] len(acc) == times(#i@1, andAlts(sub(and.And, 1, len(and.And)))) + #i
 
 //@ func traversePath(path path.PropertyPath, variable string, fetchNodes bool, iriExpander *misc.IriExpander) []regoPathResultInternal
 //@   ensures [C02:one-clause-per-alternative] len(result) == nalts(path)
